@@ -1152,7 +1152,10 @@ def h_assert(e, st, fr, args, work):
 def h_note(e, st, fr, args, work):
     tag = bytes(b for b in iter(lambda it=iter(range(200)): st.mem.get(args[0] + next(it), 0), 0) if isinstance(b, int)).decode(errors='replace')
     st.notes.append((tag, args[1] if not is_sym(args[1]) else str(args[1]))); return None
-HARNESS_API = {'vp_false': lambda e, st, fr, a, w: 0, 'vp_note': h_note, 'nondet_ushort': h_nondet(16),
+def h_concretize(e, st, fr, args, work):
+    v = args[0]
+    return e.concretize(st, v) if is_sym(v) else v          # one path per feasible value (ForkOn is handled by the engine)
+HARNESS_API = {'vp_concretize': h_concretize, 'vp_false': lambda e, st, fr, a, w: 0, 'vp_note': h_note, 'nondet_ushort': h_nondet(16),
                'nondet_bool': h_nondet(1), 'nondet_uchar': h_nondet(8), 'nondet_ulong': h_nondet(64), 'nondet_uint': h_nondet(32),
                '__CPROVER_assume': h_assume, '__CPROVER_assert': h_assert,
                'vp_global_ctors': lambda e, st, fr, a, w: None,
